@@ -36,12 +36,14 @@ ENTRY = {
                       "IQE.Engine.Subquery. The decorrelation theorems take the subquery 'correlated by a predicate' (its result under outer row l is S.filter (m l)) and ON meaning m as hypotheses; "
                       "syntactic instances are proved for a column equality. The original tree violated the property in 13 listed ways. Repaired in /repo by fix: commits (switch removed from the "
                       "active set, witness replayed from corpus/C23 on every run, a recurrence is a VIOLATION): C23-F1 NOT IN as plain anti join 47485db, C23-F2 row-by-row IN ignoring NULLs 08ac987, "
-                      "C23-F4 mirrored operator of a non-equality correlated EXISTS 1caf07a, C23-F5/F6 lost correlation predicates of IN / scalar decorrelation 2272b7e, C23-F7 count bug 51cab70. "
-                      "Still open, each mirrored by a deviation switch of the model (F11 by a signature) and printed as KNOWN-FINDING: C23-F3 (A.26: bare outer column pruned, error swallowed), "
-                      "C23-F8 swallowed cardinality / execution errors of row-by-row correlated subqueries, C23-F9 execute_scalar reads batches[0] only, C23-F10 result column typed from the first "
-                      "outer row, C23-F11 a correlated IN that is not decorrelated fails 'Column not found', C23-F12 COUNT/SUM multiplied by the semi-join reduction, C23-F13 row-by-row IN refuses DATE. "
+                      "C23-F4 mirrored operator of a non-equality correlated EXISTS 1caf07a, C23-F5/F6 lost correlation predicates of IN / scalar decorrelation 2272b7e, C23-F7 count bug 51cab70, "
+                      "C23-F9 execute_scalar reading batches[0] only 8fe594c, C23-F10 result column typed from the first outer row 9a7f30b, C23-F12 COUNT/SUM multiplied by the semi-join reduction "
+                      "ba41c49, C23-F13 row-by-row IN refusing DATE/BOOLEAN 69c41ef. Still open, mirrored by a deviation switch of the model (F11 by a signature) and printed as KNOWN-FINDING: "
+                      "C23-F3 (A.26: a bare outer column is pruned from the operator's input, the ColumnNotFound error is swallowed: NULL / false for every row), C23-F8 swallowed cardinality / execution "
+                      "errors of row-by-row correlated subqueries, C23-F11 a correlated IN that is not decorrelated fails 'Column not found'. "
                       "SAMPLED ONLY / NOT COVERED: decorrelated scalar subqueries over Parquet (scan-schema error unrelated to subqueries; Parquet is used for IN / EXISTS only); DATE operands of "
-                      "scalar comparisons (untyped NULL literal); nested subqueries; subqueries in HAVING / ON; inputs above 1000 rows.",
+                      "scalar comparisons (untyped NULL literal); aliased self-correlation (FROM t0 x1 ... (SELECT ... FROM t0 x2 WHERE x2.c = x1.c)), nested subqueries, subqueries in HAVING / ON; "
+                      "inputs above 1000 rows.",
         "technique": "Lean 4 proof over reference semantics + executable model; differential correspondence with the Rust engine on generated SQL, with and without the decorrelation rules",
     },
 }
